@@ -30,12 +30,13 @@ def build_tree(base):
     # directories whose NAMES look like pages: "adir.html" (there is no "adir") and a directory called index.html
     os.makedirs(os.path.join(base, "static", "adir.html"))
     os.makedirs(os.path.join(base, "static", "idx", "index.html"))
+    os.makedirs(os.path.join(base, "static", "p%20q"))          # a directory whose name contains a percent sign
     files = {
         "secret.txt": b"TOP-SECRET", "static2/sibling.txt": b"SIBLING-SECRET", "static/index.html": b"<root index>",
         "static/a.txt": b"file a", "static/x.html": b"<x html>", "static/é.txt": b"e-acute", "static/..name": b"dotdot name",
         "static/%2e%2e": b"literal percent name", "static/sub/index.html": b"<sub index>", "static/sub/b.txt": b"file b",
         "static/sub/page.html": b"<page>", "static/sub/a.txt": b"sub a", "static/adir.html/inner.txt": b"inner",
-        "nosuch.html": b"SIBLING OF A MISSING DIRECTORY",
+        "nosuch.html": b"SIBLING OF A MISSING DIRECTORY", "static/p%20q/index.html": b"<percent dir index>",
     }
     for rel, content in files.items():
         with open(os.path.join(base, rel), "wb") as f:
@@ -149,7 +150,8 @@ def check(kind, iface, base, path, directory_arg=None):
             v.append("status %s body %r" % (status, rec["body"][:30]))
     elif exp[0] == "redirect":
         loc = hdrs.get("location", "")
-        if status not in (301, 302, 307, 308) or not loc.endswith(exp[1].replace("é", "%C3%A9")):
+        from urllib.parse import quote
+        if status not in (301, 302, 307, 308) or not loc.endswith(quote(exp[1], safe="/")):
             v.append("expected a redirect to %r, got status %s location %r" % (exp[1], status, loc))
     else:
         if status == 200:
@@ -198,6 +200,7 @@ def bounded(tier, seed):
         ps = paths(2)
         p3 = [p for p in paths(3) if p.count("/") == 3]
         ps += p3 if tier == "thorough" else rng.sample(p3, 400)
+        ps += ["/p%20q", "/p%20q/", "/p%20q/index.html", "/p q", "/p q/"]
         ps += ["/adir", "/adir/", "/adir.html", "/adir.html/", "/adir.html/inner.txt", "/idx", "/idx/", "/idx/index.html", "/idx/index.html/"]
         ps += ["/sub/", "/sub", "/sub/page", "/sub/page.html", "/a.txt/", "/a.txt/x", "/sub/../a.txt", "/sub/../../secret.txt",
                "/../static2/sibling.txt", "//a.txt", "/sub//b.txt", "/./a.txt", "/empty/", "/empty", "/x", "/%2e%2e/secret.txt"]
